@@ -16,7 +16,7 @@ instance `toy` is the transform the harness registers under every name (name ":"
 A registered (encoding.RegisterCompressor) and a legacy (grpc.Compressor) compressor of the same
 name are the same function; what differs is WHERE the code looks them up, which is what is modelled.
 -/
-import GrpcModel.Generated.Compression
+import GrpcModel.Generated.Framing
 namespace GrpcModel.Compression
 open GrpcModel.Generated
 
